@@ -182,5 +182,6 @@ def bundled_text():
 def obligations():  # noqa: F811
     from tx import p_c13
     from tx.p_c05 import share
-    shared = share("bundle-text/", p_c13.user_text() + p_c13.line_splitting())
+    from tx.p_c05 import direct_delivery
+    shared = share("bundle-text/", p_c13.user_text() + p_c13.line_splitting()) + share("statement-text/", direct_delivery())
     return _c07_all() + fornext_closers() + bundled_text() + quote_balance() + library_blocks() + shared
